@@ -12,3 +12,7 @@ import WrglModel.Props.C16
 #print axioms Wrgl.C16_fact_pbarDoneForcesCompletion
 #print axioms Wrgl.C16_pbar_done_returns
 #print axioms Wrgl.C16_pbar_done_blocks_witness
+#print axioms Wrgl.C16_ingest_is_over_when_it_returns
+#print axioms Wrgl.C16_pipeline_counts_every_row
+#print axioms Wrgl.C16_early_return_witness
+#print axioms Wrgl.C16_sole_worker_failure_witness
